@@ -2693,6 +2693,7 @@ ABTU_ret_err int ABTI_thread_handle_request_migrate(ABTI_global *p_global,
         p_mig_data->f_migration_cb(thread, p_mig_data->p_migration_cb_arg);
     }
     /* Unset the migration request. */
+    ABTI_VERIF_POINT(ABTI_VERIF_P_MIGRATE_BEFORE_CLEAR);
     ABTI_thread_unset_request(p_thread, ABTI_THREAD_REQ_MIGRATE);
     return ABT_SUCCESS;
 }
@@ -3027,6 +3028,7 @@ ABTU_ret_err static int thread_migrate_to_pool(ABTI_global *p_global,
 
     ABTD_atomic_relaxed_store_ptr(&p_mig_data->p_migration_pool,
                                   (void *)p_pool);
+    ABTI_VERIF_POINT(ABTI_VERIF_P_MIGRATE_AFTER_TARGET_SET);
     ABTI_thread_set_request(p_thread, ABTI_THREAD_REQ_MIGRATE);
     return ABT_SUCCESS;
 }
@@ -3101,6 +3103,8 @@ static void thread_join_futexwait(ABTI_thread *p_thread)
                                                    ABTI_THREAD_REQ_JOIN);
         if (!(req & ABTI_THREAD_REQ_JOIN)) {
             ABTD_futex_single futex;
+            ABTI_VERIF_COV(ABTI_VERIF_C_JOIN_FUTEX);
+            ABTI_VERIF_POINT(ABTI_VERIF_P_JOIN_FUTEX_AFTER_REQ);
             ABTD_futex_single_init(&futex);
             ABTI_ythread dummy_ythread;
             dummy_ythread.thread.type = ABTI_THREAD_TYPE_EXT;
@@ -3140,6 +3144,7 @@ static inline void thread_join(ABTI_local **pp_local, ABTI_thread *p_thread)
 {
     if (ABTD_atomic_acquire_load_int(&p_thread->state) ==
         ABT_THREAD_STATE_TERMINATED) {
+        ABTI_VERIF_COV(ABTI_VERIF_C_JOIN_ALREADY_TERMINATED);
         ABTI_event_thread_join(*pp_local, p_thread,
                                ABTI_local_get_xstream_or_null(*pp_local)
                                    ? ABTI_local_get_xstream(*pp_local)->p_thread
@@ -3188,16 +3193,20 @@ static inline void thread_join(ABTI_local **pp_local, ABTI_thread *p_thread)
                                                ABTI_THREAD_REQ_JOIN);
     if (req & ABTI_THREAD_REQ_JOIN) {
         /* Fall-back to the yield-based join. */
+        ABTI_VERIF_COV(ABTI_VERIF_C_JOIN_YIELD_LOOP);
         thread_join_yield_thread(&p_local_xstream, p_self, &p_ythread->thread);
         *pp_local = ABTI_xstream_get_local(p_local_xstream);
     } else {
         /* Suspend the current ULT */
+        ABTI_VERIF_COV(ABTI_VERIF_C_JOIN_SUSPEND);
+        ABTI_VERIF_POINT(ABTI_VERIF_P_JOIN_AFTER_REQ);
         ABTI_ythread_suspend_join(&p_local_xstream, p_self, p_ythread,
                                   ABT_SYNC_EVENT_TYPE_THREAD_JOIN,
                                   (void *)p_ythread);
         /* This thread is resumed by a target thread.  Since this ULT is resumed
          * before the target thread is fully terminated, let's wait for the
          * completion. */
+        ABTI_VERIF_POINT(ABTI_VERIF_P_JOIN_BEFORE_FINAL_WAIT);
         thread_join_yield_thread(&p_local_xstream, p_self, &p_ythread->thread);
         *pp_local = ABTI_xstream_get_local(p_local_xstream);
     }
@@ -3253,6 +3262,7 @@ static void thread_main_sched_func(void *arg)
         ABTI_ASSERT(p_local_xstream->p_thread == &p_sched->p_ythread->thread);
 
         p_sched->run(ABTI_sched_get_handle(p_sched));
+        ABTI_VERIF_POINT(ABTI_VERIF_P_MAIN_SCHED_AFTER_RUN);
         /* The main scheduler's thread must be executed on the same execution
          * stream. */
         ABTI_ASSERT(p_local == ABTI_local_get_local_uninlined());
